@@ -1008,7 +1008,6 @@ for _f, _cells in exact_cells().items():
 TABLE['hyp1f1'] = TABLE['hyp1f1'] + [HP(RG('hp/generic/|z|<64-real', A(p_gen, p_low, uniform_bits(-64.0, 64.0)))),
                                      HP(make_pfq_cell('hyp1f1', 'hp/terminating/n<=40', 1, 1, 0, 40, -20.0, 20.0, via='hyp1f1', form='mixed'))]
 TABLE['hyp2f1'] = TABLE['hyp2f1'] + [HP(RG('hp/generic/|z|<=0.8-real', A(p_gen, p_gen, p_low, z_in))),
-                                     HP(RG('hp/generic/0.8..1-real(1-z)', A(p_gen, p_gen, p_low, uniform_bits(0.8, 0.9999)))),
                                      HP(make_pfq_cell('hyp2f1', 'hp/terminating/|z|<1', 2, 1, 0, 40, -0.95, 0.95, via='hyp2f1', form='mixed'))]
 TABLE['hyp0f1'] = TABLE['hyp0f1'] + [HP(RG('hp/b-generic/|z|<128-real', A(p_low, uniform_bits(-128.0, 128.0))))]
 TABLE['hyperu'] = TABLE['hyperu'] + [HP(RG('hp/generic/large-pos', A(p_gen, p_gen, uniform_bits(2600.0, 6000.0))))]
